@@ -410,6 +410,9 @@ def stack(arrays, axis=None, keys=None, align=False, **kwargs):
     # find common axes
     try: 
         axes = _get_axes(*arrays)
+        # _get_axes is written for broadcasting and lets size-1 axes through: compare their labels as well
+        if not all(a.axes[ax.name] == ax for a in arrays for ax in axes if ax.name in a.dims):
+            raise ValueError("axes are not aligned")
     except ValueError as msg: 
         if 'axes are not aligned' in repr(msg):
             msg = 'axes are not aligned\n ==> Try passing `align=True`' 
